@@ -248,7 +248,11 @@ func c15Run(c c15Case, st *vlib.Stats) string {
 			continue
 		}
 		for k := 0; k < op.N; k++ {
-			ops = append(ops, c15Op{Op: op.Op, Key: op.Key + k, Dirty: op.Dirty, Fresh: op.Fresh})
+			key := op.Key + k
+			if op.Op == "get" {
+				key = op.Key // a burst of lookups of one page
+			}
+			ops = append(ops, c15Op{Op: op.Op, Key: key, Dirty: op.Dirty, Fresh: op.Fresh})
 		}
 	}
 	for i, op := range ops {
@@ -322,6 +326,10 @@ func c15Gen(t *rapid.T) c15Case {
 		}
 		if op.Op == "dirty" || op.Dirty {
 			op.LSN = rapid.SampledFrom([]int{0, 0, 1, 5, 40}).Draw(t, "lsn")
+		}
+		if op.Op == "get" && rapid.IntRange(0, 19).Draw(t, "burst") == 7 {
+			// a read burst: many lookups in a row with no insertion in between
+			op.N = rapid.SampledFrom([]int{20, 63, 64, 65, 70, 130, 300}).Draw(t, "burstlen")
 		}
 		c.Ops = append(c.Ops, op)
 	}
